@@ -829,10 +829,16 @@ async fn serve(shared: SharedRef, mut io: DuplexStream, conn: usize) {
         (sh.kill.clone(), sh.kill_epoch)
     };
     loop {
-        let frame = tokio::select! {
-            biased;
-            _ = kill.notified() => None,
-            f = read_frame(&mut io) => Some(f),
+        // the epoch is checked first: a notification sent while this task was still busy with the previous exchange
+        // (e.g. reading the client's last acknowledgement) would otherwise be lost
+        let frame = if shared.lock().unwrap().kill_epoch != epoch0 {
+            None
+        } else {
+            tokio::select! {
+                biased;
+                _ = kill.notified() => None,
+                f = read_frame(&mut io) => Some(f),
+            }
         };
         let Some(frame) = frame else {
             let (epoch, action) = {
